@@ -200,7 +200,10 @@ def real_load_path(schema, path, overrides=()):
 
 def real_load_entry(schema, path, overrides=(), entry="abs", main_rel="main.conf"):
     """the same resource named in one of the four ways of C18: absolute path, path relative to the current directory,
-    file: URL, open file object (opened by absolute or by relative path)"""
+    file: URL, open file object (opened by absolute or by relative path).
+    The file objects are opened with newline=LF: their lines end at LF and nowhere else and nothing is translated - the way
+    the library itself reads a resource it opens (newline="" would leave the text untranslated but END lines at a lone CR too,
+    i.e. hand the parser different lines than the text holds; how a caller's file object splits lines is the caller's business)"""
     import urllib.request
     if entry == "abs":
         return real_load_path(schema, path, overrides)
@@ -217,7 +220,7 @@ def real_load_entry(schema, path, overrides=(), entry="abs", main_rel="main.conf
                 cfg, handler = ZConfig.loadConfig(schema, "file://" + urllib.request.pathname2url(path), overrides=list(overrides))
             elif entry == "fileobj-pathurl":
                 # an open file object with the plain path name given as its URL (relative references are then joined to a path)
-                with open(arg, encoding="utf-8", newline="") as f:
+                with open(arg, encoding="utf-8", newline="\n") as f:
                     cfg, handler = ZConfig.loadConfigFile(schema, f, path, overrides=list(overrides))
             elif entry == "fileobj-copy-url":
                 # an open file object whose own name is elsewhere (a scratch copy of the main text in an otherwise empty
@@ -228,12 +231,12 @@ def real_load_entry(schema, path, overrides=(), entry="abs", main_rel="main.conf
                 try:
                     cp = os.path.join(cd, os.path.basename(path))
                     shutil.copyfile(path, cp)
-                    with open(cp, encoding="utf-8", newline="") as f:
+                    with open(cp, encoding="utf-8", newline="\n") as f:
                         cfg, handler = ZConfig.loadConfigFile(schema, f, "file://" + urllib.request.pathname2url(path), overrides=list(overrides))
                 finally:
                     shutil.rmtree(cd, ignore_errors=True)
             elif entry.startswith("fileobj"):
-                with open(arg, encoding="utf-8", newline="") as f:
+                with open(arg, encoding="utf-8", newline="\n") as f:
                     cfg, handler = ZConfig.loadConfigFile(schema, f, overrides=list(overrides))
             else:
                 cfg, handler = ZConfig.loadConfig(schema, arg, overrides=list(overrides))
